@@ -580,10 +580,11 @@ impl InstrFormat for InstrFormat06 {
         }
     }
 
-    fn write_instr(&self, f: &mut BinWriter, _: &dyn Emitter, instr: &RawInstr) -> WriteResult {
-        f.write_i16(instr.time as _)?;
-        f.write_u8(instr.opcode as _)?;
-        f.write_u8(instr.args_blob.len() as _)?;
+    fn write_instr(&self, f: &mut BinWriter, emitter: &dyn Emitter, instr: &RawInstr) -> WriteResult {
+        f.write_i16(llir::fit_header_field(emitter, instr, "time", instr.time as i64)?)?;
+        // (the reader sign-extends the opcode byte, so the opcodes that exist are -128..=127 as u16)
+        f.write_u8(llir::fit_header_field::<i8>(emitter, instr, "opcode", instr.opcode as i16 as i64)? as u8)?;
+        f.write_u8(llir::fit_header_field(emitter, instr, "argument size", instr.args_blob.len() as i64)?)?;
         f.write_all(&instr.args_blob)?;
         Ok(())
     }
@@ -613,10 +614,10 @@ impl InstrFormat for InstrFormat07 {
         Ok(ReadInstr::Instr(RawInstr { time, opcode: opcode as _, param_mask, args_blob, ..RawInstr::DEFAULTS }))
     }
 
-    fn write_instr(&self, f: &mut BinWriter, _: &dyn Emitter, instr: &RawInstr) -> WriteResult {
+    fn write_instr(&self, f: &mut BinWriter, emitter: &dyn Emitter, instr: &RawInstr) -> WriteResult {
         f.write_u16(instr.opcode)?;
-        f.write_u16(self.instr_size(instr) as _)?;
-        f.write_i16(instr.time as _)?;
+        f.write_u16(llir::fit_header_field(emitter, instr, "size", self.instr_size(instr) as i64)?)?;
+        f.write_i16(llir::fit_header_field(emitter, instr, "time", instr.time as i64)?)?;
         f.write_u16(instr.param_mask as _)?;
         f.write_all(&instr.args_blob)?;
         Ok(())
